@@ -1237,7 +1237,10 @@ impl Transaction {
         //
         // golden ticket transactions
         //
-        if self.transaction_type == TransactionType::GoldenTicket {}
+        if self.transaction_type == TransactionType::GoldenTicket && self.data.len() != 97 {
+            error!("ERROR 582042: golden ticket transaction carries a malformed ticket");
+            return false;
+        }
 
         //
         // NFT transactions validation for Bound type
